@@ -1,4 +1,4 @@
-import XixiKV.Proofs.HistoryInv
+import XixiKV.Proofs.HistoryCost
 import XixiKV.Properties.C05
 import XixiKV.Properties.C06
 /-!
@@ -428,6 +428,119 @@ theorem C01_refines_history (dir : String) (cfg : Cfg) (hcfg : cfg.Valid) (h : L
   obtain ⟨h1, h2⟩ := hrun_ok dir h (σ := ⟨specEmpty, .none⟩) hi0.toQ hok hwf hrunok
   exact ⟨h0, h1, HInv_agree h2⟩
 
+/-! ## the range conditions of the run, derived from static bounds on the history -/
+
+/-- records that are not huge (`AOpOK`'s size conditions): key and value together at most 2^27
+    bytes — under which `GetLogRecordDiskSize` is an upper bound for what a record occupies -/
+def HOpSmall : HOp → Prop
+  | .a (.put k v) => k.size + v.size ≤ 2 ^ 27
+  | .a (.del k) => k.size ≤ 2 ^ 27
+  | .a (.bput k v) => k.size + v.size ≤ 2 ^ 27
+  | .a (.bdel k) => k.size ≤ 2 ^ 27
+  | _ => True
+
+/-- an upper bound for the bytes a call can add to the data files: the size estimate of the record it
+    writes or stages; `finCost` for the sealing record of a `Commit` -/
+def cost : HOp → Nat
+  | .a (.put k v) => Record.diskSizeEstimate k.size v.size
+  | .a (.del k) => Record.diskSizeEstimate k.size 0
+  | .a (.bput k v) => Record.diskSizeEstimate k.size v.size
+  | .a (.bdel k) => Record.diskSizeEstimate k.size 0
+  | .a .bcommit => finCost
+  | _ => 0
+
+def totalCost (h : List HOp) : Nat := (h.map cost).sum
+
+theorem HInv_quiet {dir : String} {s : St} {σ : SpecSt} (h : HInv dir s σ) (hq : isLive σ.slot = false) :
+    ∃ dead, HInvQ dir s σ.m dead := by
+  obtain ⟨m, sl⟩ := σ
+  cases sl with
+  | none => exact ⟨false, h⟩
+  | dead => exact ⟨true, h⟩
+  | live issued => simp [isLive] at hq
+
+/-- the bound after one call: at most two rotations, at most `cost op` more weight -/
+theorem Bnd_step {dir : String} {s : St} {σ : SpecSt} {A W : Nat} (op : HOp) (hi : HInv dir s σ) (hb : Bnd s A W)
+    (hop : HOpOK op) (hsm : HOpSmall op) (hwf : isLive σ.slot = true → batchCall op = true)
+    (hA : A + 1 < 2 ^ 32) (hW : W < 2 ^ 32) :
+    StepOK dir s op ∧ Bnd (hstep dir s op).1 (A + 2) (W + cost op) := by
+  cases op with
+  | a op =>
+    refine ⟨trivial, ?_⟩
+    cases op with
+    | put k v => exact (Bnd_put hb k v hop.1 hop.2 hsm).mono (by omega) (Nat.le_refl _)
+    | del k => exact (Bnd_delete hb k hop hsm).mono (by omega) (Nat.le_refl _)
+    | get k =>
+      show Bnd (get s k).1 _ _
+      rw [PolicyP.get_state]; exact hb.mono (by omega) (by simp [cost])
+    | sync => exact (Bnd_sync hb).mono (by omega) (by simp [cost])
+    | bnew sy id => exact (Bnd_bnew hb sy id hop.2).mono (by omega) (by simp [cost])
+    | bput k v => exact Bnd_bput hb k v hop.1 hop.2 hsm
+    | bdel k => exact Bnd_bdel hb k hop hsm
+    | bget k =>
+      show Bnd (bget s k).1 _ _
+      rw [bget_state]; exact hb.mono (by omega) (by simp [cost])
+    | bcommit => exact Bnd_bcommit hb
+    | bdrop => exact (Bnd_bdrop hb).mono (by omega) (by simp [cost])
+  | merge order =>
+    have hq : isLive σ.slot = false := by
+      cases hl : isLive σ.slot with
+      | false => rfl
+      | true => have := hwf hl; simp [batchCall] at this
+    obtain ⟨dead, hQ⟩ := HInv_quiet hi hq
+    obtain ⟨h1, h2⟩ := Bnd_merge hQ hb order hop hA
+    exact ⟨h1, h2.mono (by omega) (by simp [cost])⟩
+  | restart cfg =>
+    have hq : isLive σ.slot = false := by
+      cases hl : isLive σ.slot with
+      | false => rfl
+      | true => have := hwf hl; simp [batchCall] at this
+    obtain ⟨dead, hQ⟩ := HInv_quiet hi hq
+    exact ⟨restart_sizes hQ hb hW, (Bnd_restart hQ hb cfg hop hW).mono (by omega) (by simp [cost])⟩
+
+/-- **`RunOK` from static bounds**: if the history has fewer than 2^31 − 1 calls and the estimates of
+    everything it writes sum up to less than 4 GiB, both range conditions hold along the whole run -/
+theorem RunOK_of_small (dir : String) : ∀ (h : List HOp) {s : St} {σ : SpecSt} {A W : Nat}, HInv dir s σ → Bnd s A W →
+    (∀ op ∈ h, HOpOK op ∧ HOpSmall op) → WF (isLive σ.slot) h = true →
+    A + 2 * h.length + 1 < 2 ^ 32 → W + totalCost h < 2 ^ 32 → RunOK dir s h := by
+  intro h
+  induction h with
+  | nil => intro s σ A W _ _ _ _ _ _; trivial
+  | cons op ops ih =>
+    intro s σ A W hi hb hok hwf hA hW
+    simp only [WF, Bool.and_eq_true, Bool.or_eq_true, Bool.not_eq_true'] at hwf
+    have hall : isLive σ.slot = true → batchCall op = true := by
+      intro hl
+      rcases hwf.1 with h1 | h1
+      · rw [hl] at h1; cases h1
+      · exact h1
+    have hlen : (op :: ops).length = ops.length + 1 := rfl
+    have hcost : totalCost (op :: ops) = cost op + totalCost ops := by
+      simp only [totalCost, List.map_cons, List.sum_cons]
+    rw [hlen] at hA
+    rw [hcost] at hW
+    obtain ⟨hop, hsm⟩ := hok op (by simp)
+    obtain ⟨h1, h2⟩ := Bnd_step op hi hb hop hsm hall (by omega) (by omega)
+    obtain ⟨_, hi'⟩ := hstep_ok op hi hop hall h1
+    exact ⟨h1, ih hi' h2 (fun o ho => hok o (by simp [ho])) (by rw [isLive_step σ op hall]; exact hwf.2)
+      (by omega) (by omega)⟩
+
+/-- **C01 for histories, all hypotheses static.**  `C01_refines_history` with `RunOK` replaced by
+    conditions on the history alone: records of at most 2^27 bytes (`HOpSmall` = the size part of
+    `AOpOK`), at most 2^31 − 2 calls, estimated bytes written below 4 GiB.  (Beyond these bounds the
+    refinement still holds whenever the two range conditions `RunOK` hold on the run.) -/
+theorem C01_refines_history_small (dir : String) (cfg : Cfg) (hcfg : cfg.Valid) (h : List HOp)
+    (hok : ∀ op ∈ h, HOpOK op ∧ HOpSmall op) (hwf : WF false h = true)
+    (hlen : 2 * h.length + 1 < 2 ^ 32) (hcost : totalCost h < 2 ^ 32) :
+    RunOK dir (openDB St.init dir cfg).1 h ∧
+    (openDB St.init dir cfg).2 = .ok ∧
+    Holds (specRun ⟨specEmpty, .none⟩ h).2 (hrun dir (openDB St.init dir cfg).1 h).2 ∧
+    Agree (hrun dir (openDB St.init dir cfg).1 h).1 (specRun ⟨specEmpty, .none⟩ h).1 := by
+  obtain ⟨_, hi0⟩ := HInv0_fresh dir cfg hcfg
+  have hro : RunOK dir (openDB St.init dir cfg).1 h :=
+    RunOK_of_small dir h (σ := ⟨specEmpty, .none⟩) hi0.toQ (Bnd_fresh dir cfg hcfg) hok hwf (by omega) (by omega)
+  exact ⟨hro, C01_refines_history dir cfg hcfg h (fun op hop => (hok op hop).1) hwf hro⟩
+
 /-! ## corollaries -/
 
 /-- `Merge` and restarts do not touch the specification's map (by definition of `specStep`) -/
@@ -657,7 +770,7 @@ theorem C06_adopt_after_batches (s : St) (db : DB) (g : GDir) (n : Nat) (gm vis 
     (close s).2 = .ok ∧ ∃ s' db', openDB (close s).1 db.dir cfg' = (s', .ok) ∧ s'.db = some db' ∧ db'.dir = db.dir ∧
       (∀ k, absGet s' db' k = absGet s db k) ∧ Inv s' db' (gm ++ MergeP.hi g n) ∧
       s'.world.get (mergeDirName db.dir) = none ∧
-      (NoPend (Engine.logOf g) → NoPend (Engine.logOf (gm ++ MergeP.hi g n))) :=
+      (NoPend (Engine.logOf g) → NoPend (Engine.logOf (gm ++ MergeP.hi g n))) ∧ db'.activeId = db.activeId :=
   restart_adopt cfg' hdb hinv hmo hF hcfg
 
 end XixiKV.C01H
